@@ -173,7 +173,7 @@ Section Exec.
     end.
 
   (* the main loop, flattened: one launch iteration if the gate is open, else one wait if
-     anything is in flight, else the loop ends (see Proofs/ExecProofs.v for why this is the same
+     anything is in flight, else the loop ends (Proofs/ExecNested.v proves that this is the same
      loop as the nested Python one) *)
   Definition xstep (s : xstate) : option xstate :=
     if stopped s then None
